@@ -99,6 +99,9 @@ impl IpcFamily {
         let mut corpus: Vec<(String, Vec<u8>)> = vec![];
         let int32 = write_stream(&batches_int32(), d());
         corpus.push(("int32-two-batches".into(), int32.clone()));
+        // compact streams (8-byte alignment) - the two shortest entries, whose single-byte corruptions are enumerated
+        let a8 = || IpcWriteOptions::try_new(8, false, MetadataVersion::V5).unwrap();
+        corpus.push(("int32-one-batch-align8".into(), write_stream(&batches_int32()[..1], a8())));
         corpus.push(("dict-resend".into(), write_stream(&batches_dict(), d())));
         corpus.push(("dict-delta".into(), write_stream(&batches_dict(), d().with_dictionary_handling(DictionaryHandling::Delta))));
         corpus.push(("zero-rows-and-null-type".into(), write_stream(&batches_zero_and_null(), d())));
@@ -278,10 +281,13 @@ impl Family for IpcFamily {
         false
     }
     fn bounds(&self, quick: bool) -> ChunkBounds {
-        ChunkBounds { full_n: 0, pair_n: if quick { 420 } else { 1200 }, triple_n: if quick { 0 } else { 200 }, interesting_max: if quick { 11 } else { 13 }, max_groups: if quick { 4 } else { 12 }, flush_policies: false, empty_chunks: true }
+        ChunkBounds { full_n: 0, pair_n: if quick { 420 } else { 1200 }, triple_n: if quick { 0 } else { 200 }, interesting_max: if quick { 11 } else { 13 }, max_groups: if quick { 4 } else { 12 }, uniform_max: usize::MAX, flush_policies: false, empty_chunks: true }
     }
     fn corrupt_bounds(&self, quick: bool) -> ChunkBounds {
-        ChunkBounds { full_n: 0, pair_n: 0, triple_n: 0, interesting_max: if quick { 8 } else { 11 }, max_groups: if quick { 1 } else { 3 }, flush_policies: false, empty_chunks: false }
+        ChunkBounds { full_n: 0, pair_n: 0, triple_n: 0, interesting_max: if quick { 6 } else { 11 }, max_groups: if quick { 1 } else { 3 }, uniform_max: if quick { 8 } else { 64 }, flush_policies: false, empty_chunks: false }
+    }
+    fn variants_for_corrupted(&self, quick: bool) -> usize {
+        if quick { 1 } else { 3 }
     }
     fn run(&self, inp: &InputSpec, _bs: usize, variant: usize, ch: &Chunking) -> Outcome {
         run_decoder(&inp.bytes, variant, ch)
